@@ -405,9 +405,7 @@ Section Sys.
         | None => BRet s (PRaise ETransferEncoding)
         | Some size =>
           let chunk1 := drop (pos + lenN (sep s)) chunk in
-          if size =? 0 then
-            let chunk2 := if c_lax (cf s) && starts_with [13] chunk1 then drop 1 chunk1 else chunk1 in
-            BNext (upd_pa s (fun q => pa_cst q CTrailers)) chunk2
+          if size =? 0 then BNext (upd_pa s (fun q => pa_cst q CTrailers)) chunk1
           else BNext (rd_begin_chunk (upd_pa s (fun q => pa_csize (pa_cst q CChunk) size))) chunk1
         end
       | None =>
@@ -600,7 +598,8 @@ Section Sys.
                      (delivered r ++ data) in
       let s1 := set_re s r1 in
       let ok_chunks := match sp with None => true | Some l => dg_resume_chunks (lenN l) (lowc r1) end in
-      ((if (dg_resume_size (rsize r1) (low r1) || (dg_resume_when_empty && isnil buf')) && ok_chunks then resume_reading fuel s1 else s1), data)
+      ((if negb (dg_resume_not_eof && reof r1) && (dg_resume_size (rsize r1) (low r1) || (dg_resume_when_empty && isnil buf')) && ok_chunks
+        then resume_reading fuel s1 else s1), data)
     end.
 
   Fixpoint take_k (fuel : nat) (k : nat) (s : st) (acc : bytes) : st * bytes :=
